@@ -295,7 +295,10 @@ impl Triangulation3D {
 
             // this will be false if potential_diag is very small.
             let is_diagonal = the_loop.is_diagonal(potential_diag)?;
-            if !is_line && is_diagonal {
+            // an ear is a convex corner (a chord across a reflex corner can also be a diagonal
+            // once holes have been merged into the outline)
+            let is_convex = (v1 - v0).cross(v2 - v1) * the_loop.normal() > 0.;
+            if !is_line && is_convex && is_diagonal {
                 // Add triangle
                 t.push(v0, v1, v2, last_added)?;
 
